@@ -399,6 +399,12 @@ where
             .store()
             .subslice_utf8_offset(self.text())
             .expect("subslice should succeed");
+        if bytecursor > self.text().len() {
+            return Err(StamError::CursorOutOfBounds(
+                Cursor::BeginAligned(bytecursor),
+                "utf8byte_to_charpos(): byte position lies beyond the text selection (cursor value in this error is to be interpreted as a utf-8 byte position)",
+            ));
+        }
         Ok(self
             .store()
             .utf8byte_to_charpos(beginbyte + bytecursor)?
@@ -597,6 +603,12 @@ where
             .store()
             .subslice_utf8_offset(self.text())
             .expect("subslice should succeed");
+        if bytecursor > self.text().len() {
+            return Err(StamError::CursorOutOfBounds(
+                Cursor::BeginAligned(bytecursor),
+                "utf8byte_to_charpos(): byte position lies beyond the text selection (cursor value in this error is to be interpreted as a utf-8 byte position)",
+            ));
+        }
         Ok(self
             .store()
             .utf8byte_to_charpos(beginbyte + bytecursor)?
